@@ -357,7 +357,7 @@ func run(c *core.Ctx) {
 	r := c.Rng("cases")
 	names := []string{"x", "ab", "data", "$", "$$", "_a", "a1", "A_b$9", "my_var", "1a", "", " a", "a ", "a b", "a-b", "a.b", "a;alert(1)//", "é", "aé", "a\n", "var", "a=1;b", "ａ", "a‍", "K", "x\x00"}
 	scripts := []string{"", "f(x);", "alert(1)", "// c\nrun()", "\"</script>\"", ";\n", "var y = 2;\n"}
-	n := c.N(150000, 3000000) / c.NShards
+	n := c.N(600000, 6000000) / c.NShards
 	for i := 0; i < n; i++ {
 		name := names[r.Intn(len(names))]
 		if r.Intn(3) == 0 {
